@@ -76,6 +76,9 @@ class SimpleClient:
         def __disconnect_final():  # pragma: no cover
             self.connected = False
             self.connected_event.set()
+            # wake up a receive() that is waiting for an event, so that it
+            # reports the disconnection instead of waiting forever
+            self.input_event.set()
 
         @self.client.on('*', namespace=self.namespace)
         def on_event(event, *args):  # pragma: no cover
